@@ -56,7 +56,7 @@ ELEMENTS = [
     # recorded example of the open finding C15-lone-block-separator-number-is-silent
     "<math><mn>.</mn><msub><mi>a</mi><mn>1</mn></msub><msub><mi>a</mi><mn>2</mn></msub><msub><mi>a</mi><mn>3</mn></msub></math>",
 ]
-WALK = ["ZoomIn", "DescribeCurrent", "MoveNext", "ReadCurrent", "DescribeCurrent", "ZoomOut"]
+WALK = ["ZoomIn", "DescribeCurrent", "ReadCurrent", "MoveNext", "ReadNext", "DescribeCurrent", "ZoomOut"]
 
 
 def listing():
@@ -278,6 +278,7 @@ def run(tier):
     for si in range(first_work, first_fb):
         s, m, r = scripts[si], metas[si], results[si]
         cur = None
+        moved = False
         for oi, (mm, rr) in enumerate(zip(m, r["results"])):
             if mm is None:
                 continue
@@ -286,6 +287,7 @@ def run(tier):
                 out_back.append((si, oi, f"set_preference({mm[1]}, {mm[2]})"))
             elif mm[0] == "set":
                 cur = None
+                moved = False
                 if rr["r"] == "ok":
                     t = mml.parse(rr["v"], expand=False)
                     if t is not None:
@@ -300,7 +302,10 @@ def run(tier):
                 if g.startswith("nav:"):
                     # that the first command of the walk answers, and the commands that speak the current node without moving (they
                     # have a node to speak wherever the walk stands); blank navigation speech is C05's business
-                    if g not in ("nav:ZoomIn", "nav:ReadCurrent", "nav:DescribeCurrent"):
+                    # (only up to the first move: MoveNext may rest on an invisible operator, which some languages do not speak)
+                    if g not in ("nav:ZoomIn", "nav:ReadCurrent", "nav:DescribeCurrent") or moved:
+                        if g.startswith("nav:Move"):
+                            moved = True
                         continue
                     out_events.append({"getter": "must-answer", "res": rr["r"], "visible": cur["visible"], "out": [], "inp": []})
                 else:
